@@ -216,6 +216,9 @@ func matches(c *api.Context, id b6.Identifiable, query b6.Query) (bool, error) {
 // A single path will be counted twice if the point isn't at one of its
 // two ends - once in one direction, and once in the other.
 func pointDegree(context *api.Context, point b6.Feature) (int, error) {
+	if err := requireFeature("degree", point); err != nil {
+		return 0, err
+	}
 	segments := context.World.Traverse(point.FeatureID())
 	n := 0
 	for segments.Next() {
